@@ -356,6 +356,80 @@ def add_key_command(R, I, tier):
                 if ntab: R.reach_any(f'{full}: success with a key that is already in the table', [s.pc for s in oks], z3.Or([v == newk for v in tab]))
                 R.samples.append({'case': full, 'paths': len(done)})
 
+def file_io(R, I, tier):
+    """tuftool's write_file (every subcommand's way of replacing root.json) from MIR, including the closure handed to spawn_blocking: the destination is
+    only ever touched by persisting (renaming) a temporary file that lives in the destination's own directory and already holds the complete
+    serialisation; any failure leaves the destination as it was; Ok => the destination holds exactly that serialisation.  tempfile's documented contract
+    is the model of NamedTempFile (new_in creates a fresh file in the given directory, persist is an atomic rename, a NamedTempFile that is dropped is removed)."""
+    fn = I.funcs.get('write_file')
+    if not fn: raise Stuck('tuftool write_file not found in the MIR')
+    fn = fn[0]
+    st = State(); st.env['fs'] = {}
+    def m_parent(I_, s, fr, c, a, d, de, rb):
+        has = z3.Bool('path_has_parent'); return Adt('Option', z3.If(has, BV64(1), BV64(0)), {('Some', 0): Obj('path', key='DIR-OF(root.json)')})
+    def m_to_path_buf(I_, s, fr, c, a, d, de, rb): return Obj('path', key=path_key(I_, s, a[0]))
+    def m_handle(I_, s, fr, c, a, d, de, rb): return Obj('rt_handle')
+    def h_spawn(I_, s, fr):
+        if 'ret' in fr.data:
+            res = fr.data.pop('ret'); joined = z3.Bool(fresh_name('task_joined'))
+            I_.do_return(s, Obj('leaf_future', op='c20_join', res=res)); return [s]
+        raise Stuck('spawn_blocking driver re-entered')
+    def m_spawn(I_, s, fr, c, a, d, de, rb):
+        clos = mat(I_, s, a[1]); fnc = I_.resolve_closure(clos.ty if isinstance(clos, (Adt, Unknown)) else '')
+        if fnc is None: raise Stuck('closure given to spawn_blocking not found')
+        s.frames.append(ModelFrame(h_spawn, {}, de, rb)); I_.push_call(s, fnc, [clos], None, None); return PUSHED
+    def op_join(I_, s, fut): return mk_ready(mk_ok(fut.d['res']))
+    LEAF_OPS['c20_join'] = op_join
+    def m_new_in(I_, s, fr, c, a, d, de, rb):
+        okf = z3.Bool(fresh_name('tempfile_created')); dirk = path_key(I_, s, a[0])
+        return Forks([(okf, mk_ok(Obj('named_temp', dir=dirk, content=('empty',))), lambda s2: s2.events.append(('tmp.create', dirk))), (z3.Not(okf), mk_err(Obj('ioerror', ek=None)), None)])
+    def m_into_parts(I_, s, fr, c, a, d, de, rb):
+        t = mat(I_, s, a[0]); cell = s.alloc(t)
+        return Adt('tuple', None, {(None, 0): Obj('tmp_file', of=cell), (None, 1): Obj('tmp_path', of=cell)})
+    def m_to_vec_pretty(I_, s, fr, c, a, d, de, rb):
+        okf = z3.Bool(fresh_name('serialises'))
+        return Forks([(okf, mk_ok(Obj('vec', content=('pretty-json-of', dr(I_, s, a[0])))), None), (z3.Not(okf), mk_err(Obj('serde_error')), None)])
+    def m_write_all(I_, s, fr, c, a, d, de, rb):
+        f = dr(I_, s, a[0]); buf = dr(I_, s, a[1]); okf = z3.Bool(fresh_name('write_ok')); cell = f.d['of']
+        def full(s2): s2.heap[cell] = Obj('named_temp', dir=s2.heap[cell].d['dir'], content=buf.d.get('content')); s2.events.append(('tmp.write', 'complete'))
+        def part(s2): s2.heap[cell] = Obj('named_temp', dir=s2.heap[cell].d['dir'], content=('partial',)); s2.events.append(('tmp.write', 'partial'))
+        return Forks([(okf, mk_ok(unit()), full), (z3.Not(okf), mk_err(Obj('ioerror', ek=None)), part)])
+    def m_from_parts(I_, s, fr, c, a, d, de, rb): return s.heap[dr(I_, s, a[0]).d['of']]
+    def m_persist(I_, s, fr, c, a, d, de, rb):
+        t = mat(I_, s, a[0]); dest = path_key(I_, s, a[1]); okf = z3.Bool(fresh_name('persist_ok'))
+        return Forks([(okf, mk_ok(Obj('file')), lambda s2: s2.events.append(('persist', t.d['dir'], dest, t.d['content']))), (z3.Not(okf), mk_err(Obj('persist_error')), lambda s2: s2.events.append(('persist_failed', dest)))])
+    def m_fs_direct(I_, s, fr, c, a, d, de, rb):
+        try: k = path_key(I_, s, a[-1]) if a else None
+        except Exception: k = 'unreadable path'
+        s.events.append(('direct', c.split('::<')[0], k)); okf = z3.Bool(fresh_name('direct_ok'))
+        return leaf_future('ready', val=z3.If(okf, 0, 0)) if False else Forks([(okf, mk_ok(unit()), None), (z3.Not(okf), mk_err(Obj('ioerror', ek=None)), None)])
+    ms = [(RXc(r'^(std::path::)?Path::parent$'), m_parent), (RXc(r'^(std::path::)?Path::to_path_buf$'), m_to_path_buf), (RXc(r'^Handle::current$'), m_handle), (RXc(r'^Handle::spawn_blocking::<'), m_spawn),
+          (RXc(r'^(tokio::task::)?spawn_blocking::<'), lambda I_, s, fr, c, a, d, de, rb: m_spawn(I_, s, fr, c, [None] + list(a), d, de, rb)),
+          (RXc(r'^NamedTempFile::new_in::<'), m_new_in), (RXc(r'^NamedTempFile::into_parts$'), m_into_parts), (RXc(r'^(serde_json::)?to_vec_pretty::<'), m_to_vec_pretty), (RXc(r'^(serde_json::)?to_vec::<'), m_to_vec_pretty),
+          (RXc(r'^<std::fs::File as std::io::Write>::write_all$'), m_write_all), (RXc(r'^NamedTempFile::from_parts$'), m_from_parts), (RXc(r'^NamedTempFile::persist::<'), m_persist),
+          (RXc(r'^std::fs::(write|rename|copy|remove_file)::<'), m_fs_direct), (RXc(r'^<Vec<u8> as Deref>::deref$'), m_identity)] + stdm.STD_MODELS
+    saved = list(I.models); I.models[:0] = ms
+    try:
+        st.frames.append(ModelFrame(h_async_driver, {'phase': 0, 'ctor': fn, 'args': [Obj('path', key='root.json'), Obj('json_value', uid='NEW CONTENT')], 'generics': {'T': 'T'}}))
+        done = []; I.run(st, done.append)
+    finally:
+        I.models[:] = saved
+    R.check_interp_clean(I, 'write_file')
+    oks = []
+    for s in done:
+        R.paths += 1
+        tag, _ = classify(s.result)
+        pers = [e for e in s.events if e[0] == 'persist']; direct = [e for e in s.events if e[0] == 'direct']
+        good = lambda e: e[1] == 'DIR-OF(root.json)' and e[2] == 'root.json' and isinstance(e[3], tuple) and e[3][0] == 'pretty-json-of' and getattr(e[3][1], 'd', {}).get('uid') == 'NEW CONTENT'
+        R.obligation('write_file: the destination is only ever replaced by persisting a temporary file from its own directory that already holds the complete serialisation of the new value; nothing writes to it directly', s.pc,
+                     z3.BoolVal(not direct and len(pers) <= 1 and all(good(e) for e in pers)), group='write-file/atomic')
+        if tag == 'Ok':
+            oks.append(s); R.obligation('write_file: Ok => the destination was replaced', s.pc, z3.BoolVal(len(pers) == 1), group='write-file/atomic')
+        else:
+            R.obligation('write_file: an error leaves the destination as it was', s.pc, z3.BoolVal(not pers), group='write-file/error-no-effect')
+    R.reach_any('write_file: success reachable', [s.pc for s in oks])
+    R.samples.append({'function': 'write_file', 'paths': len(done)})
+
 def boxed(s, v):
     """Box<dyn T> as the MIR takes it apart: Box.0 (Unique) .0 (NonNull) transmuted to a raw pointer"""
     return Adt('Box', None, {(None, 0): Adt('Unique', None, {(None, 0): Ref(s.alloc(v))})})
@@ -464,9 +538,10 @@ def check(R, tier):
                      'commands': 'bump-version, expire, set-version, set-threshold <each role>, remove-key <id> [each role], add-key <source> -r <roles>, sign with 0..2/3 usable keys, with and without --cross-sign / --ignore-threshold',
                      'sequences': 'one step from an arbitrary file state (inductive); sequences of <= 12 real invocations in the native sweep',
                      'sign: role thresholds': 'root and targets arbitrary; snapshot and timestamp assumed to list at least `threshold` key ids (same loop body as targets)'})
-    R.assumptions += ['load_file / write_file (tuftool main.rs: temp file + persist) either fail without effect or read / atomically replace the file', 'SignedRole::new: C10 contract (signatures only by distinct keys listed for the role in the given key holder)',
+    R.assumptions += ['inside the subcommand harnesses load_file / write_file are oracles that either fail without effect or read / atomically replace the file; write_file itself is checked from MIR (write-file/*) against the contract of tempfile::NamedTempFile (new_in creates in the given directory, persist = atomic rename)', 'SignedRole::new: C10 contract (signatures only by distinct keys listed for the role in the given key holder)',
                       'signatures already in the file are over the current content (every content-changing subcommand removes them: checked here) and carry one signature per key id',
                       'init and gen-rsa-key are covered by the native sweep only (openssl); add-key with the key source as an oracle (parses or not, readable or not, yields one key)']
+    file_io(R, I, tier)
     simple_commands(R, I, tier)
     add_key_command(R, I, tier)
     sign_command(R, I, tier)
